@@ -49,8 +49,15 @@ func (pub Pubkey) Serialize() []byte {
 }
 
 func (pub *Pubkey) Deserialize(b []byte) error {
-	_, error := pub.value.Unmarshal(b)
-	return error
+	rest, err := pub.value.Unmarshal(b)
+	if err != nil || len(rest) != 0 {
+		pub.value = bn_curve.G2{}
+		if err == nil {
+			err = fmt.Errorf("pubkey Deserialize failed: %d trailing bytes", len(rest))
+		}
+		return err
+	}
+	return nil
 }
 
 func (pub Pubkey) GetHexString() string {
@@ -63,8 +70,7 @@ func (pub *Pubkey) SetHexString(s string) error {
 	}
 	buf := s[len(PREFIX):]
 
-	pub.value.Unmarshal(common.Hex2Bytes(buf))
-	return nil
+	return pub.Deserialize(common.Hex2Bytes(buf))
 }
 
 func (pub Pubkey) IsEmpty() bool {
@@ -76,7 +82,7 @@ func (pub Pubkey) IsEqual(rhs Pubkey) bool {
 }
 
 func (pub Pubkey) IsValid() bool {
-	return !pub.IsEmpty()
+	return !pub.IsEmpty() && !pub.value.IsInfinity()
 }
 
 func (pub Pubkey) GetAddress() common.Address {
